@@ -71,6 +71,12 @@ func classes(msg string) string {
 				return "ctor"
 			}
 		}
+		// round 6: an error the DECODER reports (mapstructure's aggregate "N error(s) decoding:") is a rejection of the
+		// configuration whatever its text says — a message this table does not know (a cast error that is no longer
+		// recognised and surfaces, mutant W1) must not hide among the constructor errors
+		if has("error(s) decoding") {
+			return "decode"
+		}
 		return "other:" + drv.Trunc(drv.Clean(strings.ReplaceAll(msg, " ", "_")), 80)
 	}
 	ks := make([]string, 0, len(set))
